@@ -6,8 +6,10 @@ import (
 	"bytes"
 	"fmt"
 	gotoken "go/token"
+	"regexp"
 	"runtime/debug"
 	"sort"
+	"strings"
 	"sync"
 
 	"github.com/goplus/gogen"
@@ -134,4 +136,28 @@ func CompileOrdered(nameSrc []string, opt Options) (res Result) {
 	}
 	res.Go = b.Bytes()
 	return
+}
+
+var goConstantPanic = regexp.MustCompile(`(?m): (.+ not an? (String|Int|Float|Bool|Complex)|invalid binary operation .+|invalid unary operation .+|invalid shift .+)$`)
+
+// RejectClass names the class of a compile error of a program that is known to be valid: a panic of
+// go/constant that gogen's constant folding ran into (recovered and reported as an error) gets a
+// class of its own per panic message kind, anything else is plain "cl-rejects".
+func RejectClass(err error) string {
+	if err == nil {
+		return ""
+	}
+	m := goConstantPanic.FindStringSubmatch(err.Error())
+	if m == nil {
+		return "cl-rejects"
+	}
+	switch {
+	case strings.Contains(m[1], "not a"):
+		return "cl-rejects:go-constant-panic/not-a-" + m[2]
+	case strings.HasPrefix(m[1], "invalid binary"):
+		return "cl-rejects:go-constant-panic/invalid-binary-operation"
+	case strings.HasPrefix(m[1], "invalid unary"):
+		return "cl-rejects:go-constant-panic/invalid-unary-operation"
+	}
+	return "cl-rejects:go-constant-panic/invalid-shift"
 }
